@@ -467,8 +467,44 @@ def rtu_stream_family(ctx, n, cases=None):
     return len(cases), classes
 
 
+# ---------------------------------------------------------------------------------------------
+# the C-ABI completion callbacks (Properties/C04_CAbi.v): exception replies with every code byte
+# ---------------------------------------------------------------------------------------------
+CABI_OPS = ['rc', 'rd', 'rh', 'ri', 'wc', 'wr', 'wmc', 'wmr']
+
+
+def cabi_exception_family(ctx, quick):
+    """harness ffi_client: one request through the extern "C" functions against a scripted TCP peer that answers with the
+    exception reply [fc|0x80, code]; what the C completion callback receives must be the Spec's name for that code
+    (Spec/CAbiSpec.v cabi_exception_name) and what the generated conversion tables say (cabi_callback_exception)"""
+    r = ctx.rng
+    cases = []
+    for code in range(256):
+        ops = CABI_OPS if (not quick or code in (1, 2, 3, 4, 5, 6, 8, 10, 11)) else [CABI_OPS[(code + r.randrange(8)) % 8]]
+        for op in ops:
+            cases.append((op, code))
+    out = ctx.harness('ffi_client', [f'req {op} {code} 1' for op, code in cases], timeout=600)
+    ok = ctx.build_models(['Spec.CAbiSpec', 'Model.ClientCAbi'])
+    both = ctx.coq_eval(['Spec.CAbiSpec', 'Model.ClientCAbi'], '(fun c : N => cabi_callback_exception c ++ "|" ++ cabi_exception_name c)',
+                        [str(c) for c in range(256)], case_type='N', preamble='Local Open Scope string_scope.', per_shard=256) if ok else None
+    bad = 0
+    for (op, code), line_out in zip(cases, out):
+        m = __import__('re').match(r'ffi:(\S+?)/(\S+) rust:(\S+)', line_out)
+        got = m.group(2) if m else line_out
+        model, spec = both[code].split('|') if both else (None, None)
+        if both and (got != 'failure:' + spec or got != 'failure:' + model):
+            bad += 1
+            if bad <= 2:
+                ctx.violation(f'client.cabi.exception-code-{code}.callback-receives-another-error' if got != 'failure:' + spec else 'model-differs-from-impl',
+                              f'C ABI, op {op}: the server answers with the exception reply for code {code}; the completion callback receives `{got}` '
+                              f'but the Spec says `failure:{spec}` (generated conversion tables: {model}; Rust API: {m.group(3) if m else "?"}) [ffi_client: req {op} {code} 1]',
+                              {'cabi_cases': [[op, code]], 'impl': line_out, 'spec': 'failure:' + spec, 'model': 'failure:' + model}, no_failing_input=(got == 'failure:' + spec))
+    ctx.oblige('correspondence:c-abi-callback-exception-vs-spec', bad == 0 and both is not None, f'{bad} of {len(cases)}')
+    return len(cases)
+
+
 def run(ctx):
-    ctx.translate(['Consts.v', 'ClientTables.v', 'SessionErrors.v', 'ErrorMaps.v'])
+    ctx.translate(['Consts.v', 'ClientTables.v', 'SessionErrors.v', 'ErrorMaps.v', 'FfiTables.v', 'DecodeLevels.v'])
     models_ok = ctx.build_models(REQS + ['Spec.ClientCodecSpec'])
     ctx.prove()
     if ctx.tier == 'thorough':
@@ -562,6 +598,10 @@ def run(ctx):
         missing = [n for n in need if classes.get(n, 0) < 3]
         unexpected = [k for k in classes if k.startswith('result:') and k.split(':')[1] in ('PANIC', 'BADLINE', 'OKX', 'ERR ResponseTimeout', 'ERR BadFrame', 'ERR LOST', 'ERR HUNG')]
         ctx.oblige('generator-reaches-expected-classes', not missing and not unexpected, f'missing={missing} unexpected={unexpected}')
+    n_cabi = 0
+    if not ctx.replay:
+        n_cabi = cabi_exception_family(ctx, quick)
+        classes['cabi-exception-cases'] = n_cabi
     n_rtu = 0
     if not ctx.replay:
         n_rtu, rtu_classes = rtu_stream_family(ctx, 700 if quick else 12000)
@@ -573,7 +613,7 @@ def run(ctx):
         miss = [x for x in need_rtu if classes.get(x, 0) < 3]
         ctx.oblige('rtu-stream-generator-reaches-expected-classes', not miss and 'rtu-result:PANIC' not in classes, f'missing={miss}')
     ctx.coverage.update({
-        'evaluations': len(cases) + n_rtu,
+        'evaluations': len(cases) + n_rtu + n_cabi,
         'distinct_nontrivial': len({c for c in cases if len(c[5]) >= 2}),
         'rule': 'cases (framing, kind, unit, start, count|value, reply PDU, range-is-struct-literal) from a seeded PRNG: F10 corpus (unvalidated range literals must be rejected), for every request kind and boundary range the genuine reply and its mutations (truncation, extension, function byte, byte-count byte, data bits, echo fields, coil raw value, exception replies) plus random PDUs of length 0..253; non-trivial = PDU of at least two bytes; distinct by value. RTU framing only where the RTU response parser delimits the PDU as such. Plus the RTU byte-stream family: raw chunked line bytes (genuine / mutated / exception / other unit / CRC damaged / bit flip / truncated / unknown function / over-long count / nothing, with noise or a second frame behind, then pending / EOF / error) vs client_system_rtu and ref_client_result_rtu',
         'samples': [[line(c)[:100], r[0][:60]] for c, r in list(zip(cases, results))[:8]],
